@@ -479,7 +479,7 @@ pub fn run_c03(report: &Report, tier: &Tier) {
          loss, duplication and delay, horizon 3 x largest TTL; lazy, eager and oversleep stepping; plus the two-interface scenarios of C18 part P (an interface lost or switched off) judged for the interface tags of the addresses shown; distinct by (shape, event kinds)",
     );
     report.assume("records keep one spelling and one cache-flush setting per identity (PTR shared, SRV/TXT/address unique), so 'the same record' is unambiguous");
-    for r in ["S1", "S2", "S3", "S4", "S2-interface-loss"] {
+    for r in ["S1", "S2", "S3", "S4", "S2-interface-loss", "S2-flush-in-foreign-packet"] {
         report.floor(r, 100);
     }
     let seed = report.seed;
@@ -489,9 +489,13 @@ pub fn run_c03(report: &Report, tier: &Tier) {
         run_one(util::mix(seed, 0xC03_0000 + i), "C03", &opts, l);
     });
     // addresses and the interfaces they were received on, when one of two interfaces goes
-    let np: u64 = if tier.thorough { 20_000 } else { 400 };
+    let np: u64 = if tier.thorough { 40_000 } else { 800 };
     run_parallel(report, np, threads(), tier.budget_s * 0.1, |i, l| {
-        interface_loss_case(util::mix(seed, 0xC03_9000 + i), "C03", l);
+        if i % 2 == 0 {
+            interface_loss_case(util::mix(seed, 0xC03_9000 + i), "C03", l);
+        } else {
+            foreign_flush_case(util::mix(seed, 0xC03_A000 + i), l);
+        }
     });
 }
 
@@ -520,6 +524,61 @@ pub fn interface_loss_case(seed: u64, which: &str, l: &mut Local) {
             l.violate(Violation::new("S2", format!("S2/address-from-dead-or-other-interface-record/after-interface-loss/{class}"), v.message).with(v.witness));
         }
     }
+}
+
+/// A browsed instance and a service of a type nobody browses share a host; the host's new address (cache-flush
+/// bit set) reaches the daemon inside the other service's announcement - a packet whose PTR answers are none of
+/// ours -, and 1.2-3 s later a changed TXT of the browsed instance makes the daemon report it again. Everything
+/// is long-lived, so what is shown is decided by the cache-flush rule alone; judged by the rules of C03.
+pub fn foreign_flush_case(seed: u64, l: &mut Local) {
+    use crate::scen::Svc;
+    let mut rng = crate::util::Rng::new(seed);
+    let mut w = World::new(seed);
+    let stepping = if rng.chance(1, 3) { Stepping::Eager(10) } else { Stepping::Lazy };
+    w.set_stepping(stepping);
+    let dual = rng.chance(1, 3);
+    let h = w.add_host(if dual { scen::single_dual() } else { scen::single_v4() });
+    w.set_ip_check_interval(h, 3600);
+    let browse_chan = w.browse(h, browser::TY);
+    w.run_for(rng.below(900));
+    let host = if rng.chance(1, 2) { "Shared-Box.local" } else { "shared-box.local" };
+    let mut s = Svc::new(browser::TY, if rng.chance(1, 2) { "Ours Upstairs" } else { "ours" }, host, [10, 0, 0, 50]);
+    if dual && rng.chance(1, 2) {
+        s.v6.push([0xfe, 0x80, 0, 0, 0, 0, 0, 0, 0, 0, 0, 0, 0, 0, 0, 0x50]);
+    }
+    for t in [&mut s.ttl_ptr, &mut s.ttl_srv, &mut s.ttl_txt, &mut s.ttl_addr] {
+        *t = *rng.pick(&[120u32, 4500]);
+    }
+    w.inject_msg(h, 2, scen::peer4(50), &s.announce());
+    w.run_for(1500 + rng.below(2500));
+    // the other service announces itself with the host's new address set
+    let mut s2 = s.clone();
+    s2.v4 = vec![[10, 0, 0, 51]];
+    if rng.chance(1, 3) {
+        s2.v4.push([10, 0, 0, 52]);
+    }
+    let mut f = Svc::new("_elsewhere._tcp.local.", "thing", host, [0, 0, 0, 0]);
+    f.v4 = s2.v4.clone();
+    f.v6 = s2.v6.clone();
+    f.ttl_addr = s2.ttl_addr;
+    w.inject_msg(h, 2, scen::peer4(50), &f.announce());
+    w.run_for(1200 + rng.below(1800));
+    s2.txt = wire::txt_encode(&[(b"id".to_vec(), Some(b"moved".to_vec()))]);
+    let mut m = wire::Message::response();
+    m.answers.push(s2.ptr());
+    m.answers.push(s2.txt());
+    w.inject_msg(h, 2, scen::peer4(50), &m);
+    let horizon = w.now() + 4000;
+    w.run_until(horizon);
+    l.evaluations += 1;
+    l.distinct.insert(util::fnv_str(&format!("foreign-flush|{dual}|{stepping:?}|{host}|{}|{}", s.ttl_addr, s2.v4.len())));
+    if w.trace.deaths().any(|d| matches!(d.ev, Ev::Death { panicked: true, .. })) {
+        l.inconclusive.push(format!("daemon died in a C03 scenario (seed {seed})"));
+        return;
+    }
+    l.act("S2-flush-in-foreign-packet");
+    let made = Made { world: w, horizon, desc: format!("{stepping:?} dual={dual} address update of {host} delivered inside the announcement of a service of an unbrowsed type, TXT update afterwards events: @0:announce0 @1:foreign-flush0 @2:update0"), svcs: vec![s2], policy: browser::Policy::Never, browse_chan, host_chans: Vec::new(), verifies: Vec::new() };
+    monitor_c03(&made, l);
 }
 
 /// D4 in isolation: one resolved instance with long TTLs, nothing else going on, a verify
